@@ -435,6 +435,51 @@ fn sequence_case(rep: &mut Report, seed: u64, i: u64) {
     }
 }
 
+/// The registered tag numbers of the `IanaTag` names, written from RFC 8949 section 3.4 (tags
+/// 0-5, 21-24, 32-36) and RFC 8746 (40, 41, 1040 and the typed-array block 64..=87, where 76 is
+/// reserved) - independently of the library's own table.
+fn iana_table() -> Vec<(IanaTag, u64)> {
+    use IanaTag::*;
+    vec![
+        (DateTime, 0), (Timestamp, 1), (PosBignum, 2), (NegBignum, 3), (Decimal, 4), (Bigfloat, 5),
+        (ToBase64Url, 21), (ToBase64, 22), (ToBase16, 23), (Cbor, 24),
+        (Uri, 32), (Base64Url, 33), (Base64, 34), (Regex, 35), (Mime, 36),
+        (MultiDimArrayR, 40), (HomogenousArray, 41), (MultiDimArrayC, 1040),
+        (TypedArrayU8, 64), (TypedArrayU16B, 65), (TypedArrayU32B, 66), (TypedArrayU64B, 67),
+        (TypedArrayU8Clamped, 68), (TypedArrayU16L, 69), (TypedArrayU32L, 70), (TypedArrayU64L, 71),
+        (TypedArrayI8, 72), (TypedArrayI16B, 73), (TypedArrayI32B, 74), (TypedArrayI64B, 75),
+        (TypedArrayI16L, 77), (TypedArrayI32L, 78), (TypedArrayI64L, 79),
+        (TypedArrayF16B, 80), (TypedArrayF32B, 81), (TypedArrayF64B, 82), (TypedArrayF128B, 83),
+        (TypedArrayF16L, 84), (TypedArrayF32L, 85), (TypedArrayF64L, 86), (TypedArrayF128L, 87),
+    ]
+}
+
+/// `Encoder::tag` given a registered name writes the head of the registered number.
+fn iana_tags(rep: &mut Report) {
+    let table = iana_table();
+    for (name, n) in &table {
+        rep.eval();
+        let mut want = Vec::new();
+        refcbor::head(6, refcbor::min_width(*n), *n, &mut want);
+        let got = mon::guarded(|| {
+            let mut e = Encoder::new(Vec::new());
+            e.tag(*name).map_err(|e| e.to_string())?;
+            Ok::<_, String>((e.into_writer(), Tag::from(*name).as_u64(), IanaTag::try_from(Tag::new(*n)).ok()))
+        });
+        match got {
+            Ok(Ok((bytes, num, back))) => {
+                if bytes != want || num != *n {
+                    fail(rep, "Encoder::tag(IanaTag)", format!("{:?} is registered as tag {} (head {}), the encoder wrote {} (Tag number {})", name, n, hex(&want), hex(&bytes), num), &[], vec![]);
+                }
+                let _ = back; // the reverse lookup is not part of this property (the enum is non_exhaustive)
+            }
+            Ok(Err(e)) => fail(rep, "Encoder::tag(IanaTag)", format!("{:?}: {}", name, e), &[], vec![]),
+            Err(p) => fail(rep, "Encoder::tag(IanaTag)", format!("{:?}: panic {}", name, p.message), &[], vec![]),
+        }
+    }
+    rep.enumerated(table.len() as u64);
+}
+
 fn iter_case(rep: &mut Report, seed: u64, i: u64) {
     rep.eval();
     let mut rng = Rng::derive("c03/iter", seed, 0, i);
@@ -565,6 +610,9 @@ pub fn run(a: &Args, rep: &mut Report) {
         };
     }
     for_each_subject!(m);
+    if a.shard == 0 {
+        iana_tags(rep);
+    }
     // C. balanced call sequences and iterator adapters
     let nseq: u64 = if a.thorough() { 20_000_000 } else { 1_500_000 };
     for i in 0..nseq {
